@@ -12,7 +12,9 @@ SPEC = dict(
          "CollisionDetectionAlgorithm (half space/sphere, sphere/sphere, half space/ellipsoid, ellipsoid/sphere, "
          "ellipsoid/ellipsoid, half space/mesh, sphere/mesh) with the overlap amount drawn on both sides of touching, "
          "plus both add orders through GeneralContactSubsystem, the ContactTrackerSubsystem path (hs/sph, sph/sph, hs/ell, "
-         "hs/brick) and 3-5 surfaces in one contact set; ellipsoid/sphere up to the sphere centre inside the ellipsoid "
+         "hs/brick), 3-5 surfaces in one contact set, and a surface-placement stream (X_BS identity / translation / rotation / both x "
+         "centred / off-centre mesh x sphere / mesh, through GeneralContactSubsystem and ContactTrackerSubsystem, with a coverage "
+         "floor); ellipsoid/sphere up to the sphere centre inside the ellipsoid "
          "(class centre_inside); mode 'degenerate': near-touching at +-1e-6 and +-1e-8, "
          "deep / contained / concentric, identity frames, ellipsoid pairs in arbitrary (deep) placement, fixed witnesses; "
          "distinct = distinct input records",
